@@ -94,3 +94,10 @@ pub fn with_detached<R>(f: impl FnOnce() -> R) -> R {
     CUR.store(prev, Ordering::SeqCst);
     r
 }
+
+/// Fault-injection step for user code that has no access to the context (interned key `Hash`/`Eq`).
+pub fn fault_step(site: crate::fault::FSite) {
+    if let Some(ctx) = cur() {
+        ctx.fault.step(ctx, site);
+    }
+}
